@@ -215,7 +215,8 @@ def gen_value(rng, desc, ty, depth, poly, full=False):
         n = 0 if depth <= 0 else rng.randint(0, 3)
         return ('list', [gen_value(rng, desc, ty[1], depth - 1, poly, full) for _ in range(n)])
     cid = ty[1]
-    if poly and rng.random() < 0.6:
+    if poly and depth > 0 and rng.random() < 0.6:
+        # (below depth 0 only the declared class: its references go to earlier classes, so this ends)
         cid = rng.choice(subclasses(desc, cid))
     return ('obj', cid, [gen_field_value(rng, desc, f, depth - 1, poly, full) for f in flat_fields(desc, cid)])
 
